@@ -311,35 +311,52 @@ pub fn run_c19(ctx: &mut Ctx) {
 /// after all have closed every count must return to zero.
 fn run_metrics_case(ctx: &mut Ctx, input: &Value) -> bool {
     use std::net::{IpAddr, Ipv4Addr};
+    // (source host 127.0.0.<host>, connections, through the listener whose
+    // keepalive value the kernel rejects?)
     let Some(plan) = input["clients"].as_array().and_then(|a| a.iter().map(|c| {
-        Some((c["host"].as_u64()? as u8, c["conns"].as_u64()? as usize))
-    }).collect::<Option<Vec<(u8, usize)>>>()) else { ctx.count("bad-input"); return false };
+        Some((c["host"].as_u64()? as u8, c["conns"].as_u64()? as usize,
+              c["bad"].as_bool().unwrap_or(false)))
+    }).collect::<Option<Vec<(u8, usize, bool)>>>()) else { ctx.count("bad-input"); return false };
     if plan.is_empty() || plan.len() > 8 || plan.iter().any(|p| p.1 == 0 || p.1 > 4 || p.0 == 0) {
         ctx.count("bad-input");
         return false
     }
+    let good_keepalive = input["good_keepalive"].as_u64();
+    let bad_keepalive = input["bad_keepalive"].as_u64().unwrap_or(86400);
+    // Setup on the second listener really fails iff the kernel says so.
+    let bad_fails = !kernel_accepts_keepalive(bad_keepalive);
+    let good_ok = good_keepalive.map(kernel_accepts_keepalive).unwrap_or(true);
+    if !good_ok { ctx.count("bad-input"); return false }
     let runtime = tokio::runtime::Builder::new_multi_thread()
         .worker_threads(3).enable_all().build().expect("runtime");
-    let listener = TcpListener::bind("127.0.0.1:0").expect("bind");
-    listener.set_nonblocking(true).unwrap();
-    let addr: SocketAddr = listener.local_addr().unwrap();
     let dir = std::env::temp_dir();
-    let mut config = Config::default_with_paths(dir.join("none.conf"), dir.join("none-cache"));
-    config.rtr_client_metrics = true;
-    let history = SharedHistory::from_config(&config);
     let metrics = Arc::new(RtrServerMetrics::new(true));
-    let future = {
-        let _guard = runtime.enter();
-        routinator::rtr::rtr_listener(
-            history, metrics.clone(), &config, NotifySender::new(), Some(listener)
-        ).unwrap_or_else(|_| panic!("rtr_listener failed"))
-    };
-    runtime.spawn(future);
+    // Two listeners of one server (one shared `RtrServerMetrics`): one with
+    // an accepted keepalive value (or none), one with a rejected one.
+    let mut addrs = Vec::new();
+    for keepalive in [good_keepalive, Some(bad_keepalive)] {
+        let listener = TcpListener::bind("127.0.0.1:0").expect("bind");
+        listener.set_nonblocking(true).unwrap();
+        addrs.push(listener.local_addr().unwrap());
+        let mut config = Config::default_with_paths(dir.join("none.conf"), dir.join("none-cache"));
+        config.rtr_client_metrics = true;
+        config.rtr_tcp_keepalive = keepalive.map(Duration::from_secs);
+        let history = SharedHistory::from_config(&config);
+        let future = {
+            let _guard = runtime.enter();
+            routinator::rtr::rtr_listener(
+                history, metrics.clone(), &config, NotifySender::new(), Some(listener)
+            ).unwrap_or_else(|_| panic!("rtr_listener failed"))
+        };
+        runtime.spawn(future);
+    }
+    let (good_addr, bad_addr): (SocketAddr, SocketAddr) = (addrs[0], addrs[1]);
 
     // One client thread per plan entry, all at once.
     let handle = runtime.handle().clone();
-    let threads: Vec<_> = plan.iter().map(|(host, conns)| {
+    let threads: Vec<_> = plan.iter().map(|(host, conns, bad)| {
         let (host, conns, handle) = (*host, *conns, handle.clone());
+        let addr = if *bad { bad_addr } else { good_addr };
         std::thread::spawn(move || {
             let mut socks = Vec::new();
             let mut results = Vec::new();
@@ -374,8 +391,11 @@ fn run_metrics_case(ctx: &mut Ctx, input: &Value) -> bool {
     };
     let (open_list, open_global) = snapshot(&metrics);
     let mut expected: std::collections::BTreeMap<IpAddr, usize> = Default::default();
-    for (host, conns) in &plan {
-        *expected.entry(IpAddr::V4(Ipv4Addr::new(127, 0, 0, *host))).or_insert(0) += conns;
+    // Connections that are really open: those whose setup succeeded.
+    for (host, conns, bad) in &plan {
+        if !(*bad && bad_fails) {
+            *expected.entry(IpAddr::V4(Ipv4Addr::new(127, 0, 0, *host))).or_insert(0) += conns;
+        }
     }
     drop(socks);
     // The server notices the closed connections asynchronously.
@@ -396,11 +416,18 @@ fn run_metrics_case(ctx: &mut Ctx, input: &Value) -> bool {
         "after_close": show(&closed_list), "global_after_close": closed_global as isize,
     });
     ctx.case_oracle_only(input, &format!("{} | {}", show(&open_list), show(&closed_list)));
-    ctx.nontrivial(format!("{plan:?}"));
+    ctx.nontrivial(format!("{plan:?}|{good_keepalive:?}|{bad_keepalive}"));
     ctx.count("e2e-cases");
-    if results.iter().flatten().any(|r| *r != "served") {
-        ctx.oracle_fail("e2e-connection-not-served", "a connection was not answered", input, observed.clone());
-        return true
+    ctx.count(&format!("e2e-failing-setups={}",
+        plan.iter().filter(|p| p.2 && bad_fails).map(|p| p.1).sum::<usize>().min(9)));
+    for (entry, res) in plan.iter().zip(results.iter()) {
+        let want = if entry.2 && bad_fails { "closed" } else { "served" };
+        if res.iter().any(|r| *r != want) {
+            ctx.oracle_fail("e2e-connection-outcome",
+                &format!("connections of {entry:?} should all be {want} but were {res:?}"),
+                input, observed.clone());
+            return true
+        }
     }
     let mut failed = false;
     if !open_list.windows(2).all(|w| w[0].0 < w[1].0) {
@@ -408,7 +435,11 @@ fn run_metrics_case(ctx: &mut Ctx, input: &Value) -> bool {
         ctx.oracle_fail("e2e-list-not-strictly-sorted", "client list not strictly sorted", input, observed.clone());
     }
     let listed: std::collections::BTreeMap<IpAddr, usize> = open_list.iter().cloned().collect();
-    if listed != expected || open_list.len() != expected.len() {
+    // Addresses whose connections all failed setup may or may not be listed;
+    // if they are, with zero open connections.
+    let counts_ok = open_list.iter().all(|(a, c)| *c == expected.get(a).copied().unwrap_or(0))
+        && expected.keys().all(|a| listed.contains_key(a));
+    if !counts_ok {
         failed = true;
         ctx.oracle_fail("e2e-open-counts-wrong",
             &format!("while all connections are open the list is {} but the open connections are {expected:?}", show(&open_list)),
@@ -424,7 +455,7 @@ fn run_metrics_case(ctx: &mut Ctx, input: &Value) -> bool {
             &format!("after every connection was closed the counts are {} global {}", show(&closed_list), closed_global as isize),
             input, observed.clone());
     }
-    if closed_list.iter().map(|x| x.0).collect::<Vec<_>>() != expected.keys().copied().collect::<Vec<_>>() {
+    if !expected.keys().all(|a| closed_list.iter().any(|x| x.0 == *a)) {
         failed = true;
         ctx.oracle_fail("e2e-address-lost", "an address disappeared from the list", input, observed);
     }
@@ -433,9 +464,10 @@ fn run_metrics_case(ctx: &mut Ctx, input: &Value) -> bool {
 
 pub fn run_c36e(ctx: &mut Ctx) {
     ctx.rule = "one case = one real rtr_listener with per-client metrics + concurrent client \
-        threads opening 1-4 answered connections each from loopback source addresses \
-        127.0.0.x (repeated and distinct), checked while open and after close; distinct = \
-        distinct plans".into();
+        threads opening 1-3 connections each from loopback source addresses 127.0.0.x \
+        (repeated and distinct) through two listeners sharing the metrics: one with an accepted \
+        keepalive value, one with a kernel-rejected one (setup really fails, connection closed \
+        by the server); counts checked while open and after close; distinct = distinct plans".into();
     if let Some(inputs) = ctx.replay_inputs() {
         for input in inputs { run_metrics_case(ctx, &input); }
         return
@@ -448,10 +480,17 @@ pub fn run_c36e(ctx: &mut Ctx) {
     let n = ctx.budget(150, 1500);
     for _ in 0..n {
         let clients = ctx.rng.range(1, 5);
+        // A third of the client threads go through the listener whose
+        // keepalive value the kernel rejects (their setup really fails).
         let plan: Vec<Value> = (0..clients).map(|_| json!({
-            "host": ctx.rng.range(1, 6), "conns": ctx.rng.range(1, 3)
+            "host": ctx.rng.range(1, 6), "conns": ctx.rng.range(1, 3), "bad": ctx.rng.chance(1, 3)
         })).collect();
-        if run_metrics_case(ctx, &json!({"clients": plan})) { failures += 1 }
+        let input = json!({
+            "clients": plan,
+            "good_keepalive": *ctx.rng.pick(&[None, Some(60u64), Some(32767)]),
+            "bad_keepalive": *ctx.rng.pick(&[32768u64, 86400, u32::MAX as u64, 0, u64::MAX]),
+        });
+        if run_metrics_case(ctx, &input) { failures += 1 }
         if failures >= 3 { break }
     }
 }
